@@ -5,7 +5,7 @@ import storefam
 import vlib
 
 PID = "C03"
-FILES = ["theories/Properties/C03.v", "theories/Examples/C03Examples.v"]
+FILES = ["theories/Properties/C03.v", "theories/Examples/C03Examples.v", "theories/Examples/C03Wirings.v"]
 FACTS = ("E", "F", "S", "C", "CF", "U", "X", "XK", "JUNK")
 
 
@@ -42,11 +42,156 @@ def nonnull_oracle(sch, facts):
     return probs
 
 
+def _unhex(h):
+    if h == "-":
+        return ""
+    try:
+        return bytes.fromhex(h).decode("latin-1")
+    except ValueError:
+        return "?" + h
+
+
+def _declared_indexes(sch):
+    """-> {(entity type, field): "U" | "SI"} : where the schema puts an index bucket (<base>/indexes/<type>/<symbol>)"""
+    decl = {}
+    for sname in sch.order:
+        for c in sch.stores[sname]["cons"]:
+            if c[0] in ("U", "SI"):
+                decl[(sch.root(sname), c[1])] = c[0]
+    return decl
+
+
+def misplaced_index_oracle(sch, facts, other=()):
+    """Every index entry found by the raw traversal lies in the bucket of an index the schema declares for that entity
+    type and symbol, and has the shape of that kind of index (unique: value -> id ; set: value -> bucket of ids).
+    An entry elsewhere is an index written to the wrong place: the index it belongs to does not mirror the entities
+    and the index it landed in holds a value no entity has in that field."""
+    decl = _declared_indexes(sch)
+    roots = set(sch.root(s) for s in sch.order)
+    probs = []
+    for t in other:
+        if t.startswith("IXTOP:"):
+            probs.append("bucket %s at the top of the database file, outside the stores' base path" % _unhex(t[6:]))
+    strange = set()
+    for f in facts:
+        p = f.split(":")
+        if p[0] in ("E", "F", "S", "C", "CF") and len(p) >= 3 and p[1] not in roots and p[1] not in strange:
+            strange.add(p[1])
+            probs.append("bucket %s next to the store buckets is not a store of the schema (first entry %s)" % (p[1], f))
+        if p[0] in ("U", "X", "XK") and len(p) >= 4:
+            kind = decl.get((p[1], p[2]))
+            want = "U" if p[0] == "U" else "SI"
+            if p[0] == "U":
+                what = "unique-index entry %s -> %s" % (_unhex(p[3]), _unhex(p[4]) if len(p) > 4 else "?")
+            elif p[0] == "X":
+                what = "set-index entry %s -> {%s}" % (_unhex(p[3]), _unhex(p[4]) if len(p) > 4 else "?")
+            else:
+                what = "set-index key %s" % _unhex(p[3])
+            if kind is None:
+                probs.append("%s found under indexes/%s/%s where the schema declares no index" % (what, p[1], p[2]))
+            elif kind != want:
+                probs.append("%s found in the bucket of the %s index %s.%s" % (what, "unique" if kind == "U" else "set", p[1], p[2]))
+    return probs
+
+
+def index_read_oracle(sch, tx):
+    """The read API of the indexes (tokens of store_c03s.go c03IndexReads) against the entities of the same observation:
+    ReadIndex.Read(v) is the one entity holding v in THAT field or nil; SetReadIndex.Read(v) visits exactly the entities
+    whose set contains v; ReadKeys lists exactly the values somebody holds."""
+    toks = tx.get("other", ())
+    probed = None
+    uread, sread, skeys = {}, {}, {}
+    for t in toks:
+        p = t.split(":")
+        if p[0] == "IXP":
+            probed = p[1].split(",")
+        elif p[0] == "IXU":
+            uread[(p[1], p[2], p[3])] = p[4]
+        elif p[0] == "IXS":
+            sread[(p[1], p[2], p[3])] = set(p[4].split(","))
+        elif p[0] == "IXK":
+            skeys[(p[1], p[2])] = set(p[3].split(","))
+        elif p[0] == "IXPANIC":
+            return ["reading the indexes through their API panicked: %s" % _unhex(p[1])]
+    if probed is None:
+        if any(t.startswith("IX") for t in toks):
+            return ["index reads without a probe list"]
+        probed = []
+    facts = tx["facts"]
+    ents, fvals, setm, child = {}, {}, {}, set()
+    for f in facts:
+        p = f.split(":")
+        if p[0] == "E":
+            ents.setdefault(p[1], set()).add(p[2])
+        elif p[0] == "F":
+            fvals[(p[1], p[2], p[3])] = p[4]
+        elif p[0] == "CF":
+            fvals[(p[1], p[2], p[3] + "." + p[4])] = p[5]
+        elif p[0] == "S":
+            setm.setdefault((p[1], p[2], p[3]), set()).add(p[4])
+        elif p[0] == "C":
+            child.add((p[1], p[2], p[3]))
+    probs = []
+    for sname in sch.order:
+        sd = sch.stores[sname]
+        root = sch.root(sname)
+        for c in sd["cons"]:
+            if c[0] == "U":
+                field = c[1]
+                holders = {}
+                for i in ents.get(root, ()):
+                    if sd["parent"]:
+                        if (root, i, sname) not in child:
+                            continue
+                        v = fvals.get((root, i, sname + "." + field), "absent")
+                    else:
+                        v = fvals.get((root, i, field), "absent")
+                    if v.startswith("s") and v != "s-":
+                        holders.setdefault(v[1:], []).append(i)
+                for v in probed:
+                    got = uread.get((sname, field, v))
+                    hs = holders.get(v, [])
+                    if len(hs) > 1:
+                        continue  # uniqueness itself is broken: reported by the mirror oracle
+                    want = hs[0] if hs else None
+                    if got != want:
+                        probs.append("unique index %s.%s: Read(%s) returns %s but %s" % (
+                            sname, field, _unhex(v), "entity " + _unhex(got) if got else "nil",
+                            ("entity %s holds that value" % _unhex(want)) if want else "no entity has that value in this field"))
+                for (s2, f2, v), got in sorted(uread.items()):
+                    if (s2, f2) == (sname, field) and v not in probed:
+                        probs.append("unique index %s.%s: Read(%s) = %s for a value that was not probed" % (sname, field, v, got))
+            elif c[0] == "SI" and not sd["parent"]:
+                setf = c[1]
+                want = {}
+                for i in ents.get(root, ()):
+                    for m in setm.get((root, i, setf), ()):
+                        want.setdefault(m, set()).add(i)
+                for v in probed:
+                    got = sread.get((sname, setf, v), set())
+                    w = want.get(v, set()) if v != "-" else set()
+                    if got != w:
+                        probs.append("set index %s.%s: Read(%s) visits %s but the entities whose set contains it are %s" % (
+                            sname, setf, _unhex(v), sorted(_unhex(x) for x in got), sorted(_unhex(x) for x in w)))
+                gk = skeys.get((sname, setf), set())
+                wk = set(k for k in want if k != "-")
+                if gk != wk:
+                    probs.append("set index %s.%s: ReadKeys lists %s but the values held are %s" % (
+                        sname, setf, sorted(_unhex(x) for x in gk), sorted(_unhex(x) for x in wk)))
+    return probs
+
+
 def oracle(sch, txs, io, mo):
     out = []
     prev = []
     for k, a in enumerate(io):
         if a["commit"]:
+            mp = misplaced_index_oracle(sch, a["facts"], a.get("other", ()))
+            if mp:
+                cons = storefam.index_oracle(sch, a["facts"])
+                out.append(("C03:index-misplaced", "after a committed transaction: " + "; ".join(mp[:3]) +
+                            ((" -- hence " + "; ".join(cons[:2])) if cons else ""), k))
+                break
             nn = nonnull_oracle(sch, a["facts"])
             if nn:
                 out.append(("C03:nonnull-unique-empty", "after a committed transaction: " + "; ".join(nn[:3]), k))
@@ -55,6 +200,10 @@ def oracle(sch, txs, io, mo):
             if probs:
                 kind = "unique" if probs[0].startswith("unique") else ("set" if probs[0].startswith("set") else "junk")
                 out.append(("C03:index-mirror-" + kind, "after a committed transaction: " + "; ".join(probs[:3]), k))
+                break
+            rp = index_read_oracle(sch, a)
+            if rp:
+                out.append(("C03:index-read", "after a committed transaction: " + "; ".join(rp[:3]), k))
                 break
         else:
             fa, fp = storefam.proj_facts(a, FACTS), tuple(f for f in prev if f.split(":", 1)[0] in FACTS)
@@ -66,8 +215,28 @@ def oracle(sch, txs, io, mo):
     return out
 
 
+def _minimal_prefix(c):
+    """replays of failing histories keep only the transactions up to the one at which the oracle fired (the executor is
+    deterministic, a history prefix behaves the same); the untruncated history stays in the replay as full_case"""
+    report = c.violation
+
+    def violation(key, what, replay_obj, no_input=False):
+        if isinstance(replay_obj, dict) and "case" in replay_obj and isinstance(replay_obj.get("tx"), int):
+            k = replay_obj["tx"]
+            parts = replay_obj["case"].split(" TX ")
+            if len(parts) > k + 2:
+                replay_obj = dict(replay_obj, full_case=replay_obj["case"], case=" TX ".join(parts[:k + 2]))
+                for side in ("impl", "model"):
+                    segs = replay_obj.get(side, "").split(" | ")
+                    replay_obj[side] = " | ".join(segs[:k + 1]) + " | "
+        return report(key, what, replay_obj, no_input)
+
+    c.violation = violation
+
+
 def main(argv):
     c = vlib.Check(PID, argv)
+    _minimal_prefix(c)
     c.assumptions = ["bbolt rollback restores the previous content (trusted; observed by the full traversal after every transaction)"]
     proof_ok = c.proof_step(FILES)
     storefam.run_family(c, "c03", 1200, 20000, compare, oracle,
@@ -78,7 +247,14 @@ def main(argv):
                         "index-mirrors-entities oracle is evaluated directly on the implementation's facts. Every second history is a WARM one "
                         "(store_c03s.go): the stores are first populated (fk targets first, distinct unique values), then short mostly-valid "
                         "transactions perturb string sets (add / drop / replace one member keeping the others, re-order, duplicate, empty), hand "
-                        "unique values over or collide on purpose, delete and re-create - so index maintenance on populated stores commits often.",
+                        "unique values over or collide on purpose, delete and re-create - so index maintenance on populated stores commits often. "
+                        "A further third of the histories (own random stream) runs on stores whose BasePath has 1-4 elements, with exact capacity "
+                        "or as one shared slice with spare capacity, that carry several unique and set indexes per store (root and child store, "
+                        "different registration orders) plus the stock idx/casc shapes 3 and 4 levels deep; their warm histories move values "
+                        "that one indexed field holds into ANOTHER indexed or plain field of the same store family (unique->unique, unique->set, "
+                        "set->unique, set->set). After every transaction every unique and set index is also read through its API "
+                        "(ReadIndex.Read, SetReadIndex.Read/ReadKeys) with every string stored anywhere in the database, and compared with the "
+                        "entities; index entries the raw traversal finds in a bucket the schema declares no index (of that kind) for are reported.",
                         command="store_c03s")
     if not proof_ok:
         c.violation(PID + ":proof", "proof obligation no longer checks: %s" % json.dumps(c.proof_broken)[:600],
